@@ -29,6 +29,8 @@ package scheduler
 //@   mode nopanic=off
 //@   at[made] call scheduler.PartitionContext.incReservationCount#1: assert app.reservations[ask.allocationKey] != nil && app.reservations[ask.allocationKey].node == node && node.reservations[ask.allocationKey] != nil
 //@   at[queue] call objects.Queue.Reserve#1: assert arg0 == app.queue && arg1 == app.ApplicationID && app.reservations[ask.allocationKey] != nil
+//@   at[moved] call scheduler.PartitionContext.unReserve#1: assert arg0 == pc && arg1 == app && arg3 == ask
+//@   ensures[allviews] ncalls(objects.Application.UnReserve) == 0 && ncalls(objects.Application.unReserveInternal) == 0 && ncalls(objects.Node.unReserve) == 0
 
 // the counter and the queue are decremented by exactly the number of reservations the application gave up (0 or 1)
 //@ func (pc *PartitionContext) unReserve(app *objects.Application, node *objects.Node, ask *objects.Allocation)
